@@ -425,6 +425,7 @@ def run(ck):
     ck.source_tie("flowfn")
     ck.source_tie("flowif")
     ck.source_tie("smallnat")
+    ck.flow_tables_standin()
     ck.hygiene()
     ck.ocaml_build()
     ck.harness_build(["c04"])
